@@ -92,8 +92,6 @@ theorem addDirective_regs (s : BSt) (d : Dir) (kids : List DT) (anc : List Dir) 
       have e : newServers d = [] := by simp [newServers, hk]
       rw [e, List.append_nil]
       exact map_fst_update _ _ _))
-    all_goals trace_state
-    all_goals sorry
 
 theorem addDescriptionText_regs (s : BSt) (d : Dir) (anc : List Dir) (content : Bytes → Bytes) (s' : BSt)
     (h : addDescriptionText s d anc content = .ok s') :
